@@ -244,7 +244,7 @@ NORMAL_SHAPES = [lambda: shape_get(), lambda: shape_get(method=b"HEAD"), lambda:
 SMALL_SHAPES = [shape_bighdr, shape_chunkext]
 
 BEHS = ["", "f=r0", "f=r3", "f=no", "f=s1", "f=s1 l=no", "u=2", "u=0", "u=1,all", "ur=0:r0", "us=0:1", "us=1:2 u=3",
-        "l=r3", "l=no", "l=s2", "l=r9", "f=r9"]
+        "l=r3", "l=no", "l=s2", "l=r9", "f=r9", "l=c"]
 
 
 SMALL_BEHS = ["", "u=2", "l=no", "f=no", "u=0"]
@@ -258,8 +258,9 @@ class Case:
         self.lines += ls
 
 
-def case_header(cs, mode, mem, suspend=True, timeout=5, extra=""):
-    cs.add("case " + cs.name, "cfg mode=%s mem=%d timeout=%d suspend=%d%s" % (mode, mem, timeout, 1 if suspend else 0, extra), "start",
+def case_header(cs, mode, mem, suspend=True, timeout=5, extra="", urilog=True):
+    cs.add("case " + cs.name, "cfg mode=%s mem=%d timeout=%d suspend=%d urilog=%d%s" % (mode, mem, timeout, 1 if suspend else 0,
+                                                                                      1 if urilog else 0, extra), "start",
            "resp 3 kind=freecb size=7", "resp 9 kind=copy size=4 code=99")
 
 
@@ -267,7 +268,7 @@ def send_line(c, shape, lo, hi):
     return "send %d %s %s" % (c, _hx(shape.data[lo:hi]), " ".join(shape.tokens_for(lo, hi)))
 
 
-def gen_placement(shape_f, mode, beh, phase_idx, action, after, mid):
+def gen_placement(shape_f, mode, beh, phase_idx, action, after, mid, urilog=True):
     """one request shape; the client sends up to a phase boundary (or into the middle of the next
     element), everything settles, then ONE action; then (unless the action ended the exchange)
     the rest is sent and everything settles again; finally stop"""
@@ -286,11 +287,12 @@ def gen_placement(shape_f, mode, beh, phase_idx, action, after, mid):
         cut = cut + (nxt[0] - cut) // 2
     if sh.small and beh not in SMALL_BEHS:
         return None          # replies of the application in a 300-byte arena fail for lack of pool space (not modelled)
-    cs = Case("pl-%s-%s-p%d%s-%s-%s-%s" % (sh.name, mode, phase_idx, "m" if mid else "", beh.replace(" ", "_").replace("=", "") or "dflt", action, after))
+    cs = Case("pl-%s-%s-p%d%s-%s-%s-%s%s" % (sh.name, mode, phase_idx, "m" if mid else "", beh.replace(" ", "_").replace("=", "") or "dflt",
+                                            action, after, "" if urilog else "-nouri"))
     mem = 300 if sh.small else 8192
     if sh.name == "errhdr-small-arena":
         mem = 256
-    case_header(cs, mode, mem, extra=(" lvl=2 incr=64" if sh.name == "errhdr-small-arena" else ""))
+    case_header(cs, mode, mem, extra=(" lvl=2 incr=64" if sh.name == "errhdr-small-arena" else ""), urilog=urilog)
     if beh:
         cs.add("beh 0 0 " + beh)
     cs.add("arrive 0 1")
@@ -301,7 +303,11 @@ def gen_placement(shape_f, mode, beh, phase_idx, action, after, mid):
     else:
         cs.add("settle 2")
     ended = False
-    if action == "shutwr":
+    if action.endswith("1stop"):
+        # the action, ONE event-loop round, then the daemon is stopped (nothing has settled)
+        cs.add({"tick1stop": "tick 6000", "shutwr1stop": "shutwr 0", "cclose1stop": "cclose 0"}[action], "settle 1", "stop")
+        ended = True
+    elif action == "shutwr":
         cs.add("shutwr 0"); ended = True
     elif action == "cclose":
         cs.add("cclose 0"); ended = True
@@ -309,7 +315,7 @@ def gen_placement(shape_f, mode, beh, phase_idx, action, after, mid):
         cs.add("tick 6000")
     elif action == "stop":
         cs.add("stop"); ended = True
-    if action != "stop":
+    if action != "stop" and not action.endswith("1stop"):
         cs.add("settle %d" % st)
         if not ended and cut < len(sh.data):
             cs.add(send_line(0, sh, cut, len(sh.data)), "settle %d" % st)
@@ -326,7 +332,7 @@ def gen_random(rng, idx):
     mode = rng.choice(["select", "epoll"])
     nconn = rng.choice([1, 1, 2])
     cs = Case("rnd-%d-%s" % (idx, mode))
-    case_header(cs, mode, 8192)
+    case_header(cs, mode, 8192, urilog=(rng.random() < 0.75))
     plans = []
     for c in range(nconn):
         nreq = rng.choice([1, 2, 2, 3])
@@ -381,6 +387,50 @@ def gen_random(rng, idx):
         cs.add("settle 24", "stop")
     cs.tags = ["random", mode, "conns:%d" % nconn]
     return cs
+
+
+def gen_outq_cases():
+    """MHD_queue_response called by the application outside the access handler: while the connection is
+    suspended (at the first / the final call), after a final call that did not reply, too early, twice"""
+    out = []
+    for mode in ("select", "epoll"):
+        for urilog in (True, False):
+            for shf in (lambda: shape_get(), lambda: shape_post_cl(5), lambda: shape_post_chunked((4,), False)):
+                for kind in ("susp-final", "susp-first", "noreply-final", "too-early", "twice", "after-close"):
+                    for tail in ("end", "pipeline", "tick", "stop"):
+                        sh = shf()
+                        cs = Case("outq-%s-%s-%s-%s%s-%s" % (kind, sh.name, mode, tail, "" if urilog else "-nouri", len(out)))
+                        case_header(cs, mode, 8192, urilog=urilog)
+                        cs.bodies[(0, 0)] = sh.body
+                        beh = {"susp-final": "l=s40", "susp-first": "f=s40", "noreply-final": "l=c", "too-early": "l=c",
+                               "twice": "l=s40", "after-close": "l=c"}[kind]
+                        cs.add("beh 0 0 " + beh, "arrive 0 1")
+                        if kind == "too-early":
+                            cs.add("settle 2", "reply-out 0 0", send_line(0, sh, 0, sh.bounds()[0]), "settle 4", "reply-out 0 0")
+                            cs.add(send_line(0, sh, sh.bounds()[0], len(sh.data)), "settle 6", "reply-out 0 3", "settle 6")
+                        else:
+                            cs.add(send_line(0, sh, 0, len(sh.data)), "settle 6")
+                            if kind == "after-close":
+                                cs.add("cclose 0", "settle 4", "reply-out 0 0", "settle 4")
+                            else:
+                                cs.add("reply-out 0 3")
+                                if kind == "twice":
+                                    cs.add("reply-out 0 0")
+                                if kind in ("susp-final", "susp-first", "twice"):
+                                    cs.add("settle 2", "resume 0")
+                                cs.add("settle 8")
+                        if tail == "pipeline":
+                            g = shape_get()
+                            cs.bodies[(0, 1)] = b""
+                            cs.add(send_line(0, g, 0, len(g.data)), "settle 8")
+                        elif tail == "tick":
+                            cs.add("tick 6000", "settle 6")
+                        if tail != "stop":
+                            cs.add("settle 2")
+                        cs.add("stop")
+                        cs.tags = ["outq-" + kind, mode]
+                        out.append(cs)
+    return out
 
 
 def gen_fault_cases():
@@ -600,6 +650,9 @@ class ProtocolOracle:
                 self.err("URI of a new request logged before completion of the previous one")
             s["open"] = {"r": None, "site": 0, "taken": 0, "replied": False, "failed": False, "pending": None, "calls": 0}
         elif k == "handler":
+            if "state" not in d or "phase" not in d or "up" not in d or "r" not in d:
+                self.err("malformed handler record: " + line[:100])
+                return
             site = SITE_OF_STATE.get(int(d["state"]))
             if site is None:
                 self.err("handler called in connection state %s" % d["state"])
@@ -685,7 +738,9 @@ class Spec:
     props_module = "Mhd.Props.C05"
     lean_targets = ["Mhd.Props.C05", "drv_sm"]
     required_theorems = ["Mhd.C05.protocol_accepts", "Mhd.C05.protocol_complete", "Mhd.C05.aware_iff_open_request",
-                         "Mhd.C05.closed_only_unaware", "Mhd.C05.tree_f9_fixed", "Mhd.C05.protocol_accepts_tree"]
+                         "Mhd.C05.closed_only_unaware", "Mhd.C05.protocol_accepts_fixed", "Mhd.C05.tree_f9_fixed",
+                         "Mhd.C05.tree_other_repairs", "Mhd.C05.protocol_accepts_tree", "Mhd.C05.witness_f9",
+                         "Mhd.C05.witness_alloc_bypass", "Mhd.C05.witness_epoll_bypass", "Mhd.C05.witness_f14"]
     trusted_base = ["Lean 4 kernel", "axioms: propext, Classical.choice, Quot.sound at most (audited per theorem)",
                     "hand-written model lean/Mhd/Model/ConnSM.lean tied to connection.c/daemon.c by this run's correspondence "
                     "(callback sequence per connection + connection->state / client_aware at every settled point)",
@@ -694,9 +749,14 @@ class Spec:
                     "scheduling glue lean/Driver/SM.lean (event loop, socketpair abstraction; its traces are re-run through the model)",
                     "harness/h_sm.c, gcc, ASan/UBSan/LSan"]
     assumptions = ["HTTP parsers abstracted to tokens (what each byte position completes is given by the generator)",
-                   "application: no 102-Processing and no upgrade responses; handler consumes at most what it is shown",
-                   "external polling modes (select, epoll); thread-per-connection shutdown path not modelled",
-                   "the daemon applies the connection events of Mhd.ConnSM.Ev only (cleanup only after cleanup_connection / close_connection)"]
+                   "application: no 102-Processing and no upgrade responses; handler consumes at most what it is shown; "
+                   "MHD_queue_response outside the handler only for a request the application has been shown",
+                   "external polling modes (select, epoll); thread-per-connection shutdown path (mark_closed_ only) not modelled",
+                   "the daemon applies the connection events of Mhd.ConnSM.Ev only (cleanup only after cleanup_connection / close_connection)",
+                   "completeness of the upload (all body bytes presented before the first final call) is checked by the oracle on the real "
+                   "log, not proved in Lean; contiguity / order / re-presentation of the declined suffix is proved",
+                   "replies of the application in 300-byte arenas and the position inside an over-long element where the arena is "
+                   "exhausted are not generated (pool arithmetic is C08's model, not this one)"]
 
     def gen(self, ctx):
         gen_connstate(ctx.notes if hasattr(ctx, "notes") else None)
@@ -708,7 +768,7 @@ class Spec:
     # ------------------------------------------------------------------
     def run_batch(self, cases, failures, stats):
         lines = [l for cs in cases for l in cs.lines]
-        hout, hrc, herr = vlib.run_lines(self.harness, lines, timeout=900)
+        hout, hrc, herr = vlib.run_lines(self.harness, lines, timeout=int(os.environ.get("C05_HARNESS_TIMEOUT", "300")))
         mout, mrc, merr = vlib.run_lines(self.driver, lines, timeout=900)
         hc, mc = split_cases(hout), split_cases(mout)
         flagged = 0
@@ -719,7 +779,11 @@ class Spec:
             stats["cases"] += 1
             orc = ProtocolOracle(cs.bodies)
             for l in hl:
-                orc.feed(l)
+                try:
+                    orc.feed(l)
+                except (KeyError, ValueError, IndexError):
+                    if not (hrc != 0 and l is hl[-1]):      # a truncated last line belongs to the crash below
+                        orc.err("malformed log record: " + l[:100])
             complete = any(l == "stopped" for l in hl)
             if orc.errors:
                 flagged += 1
@@ -756,7 +820,8 @@ class Spec:
                 for cs in cases:
                     if cs.name in hc:
                         last = cs
-                failures.append(vlib.Failure("sanitizer", "sm: harness aborted (%s)" % ("leak" if leak else "rc=%d" % hrc),
+                failures.append(vlib.Failure("sanitizer", "sm: harness %s" % ("did not terminate (busy loop in the library?)" if hrc == -999 else
+                                                                              "aborted (%s)" % ("leak" if leak else "rc=%d" % hrc)),
                                              herr[-2000:], (last.lines if last and not leak else lines[:400]), "sm"))
         if mrc != 0:
             failures.append(vlib.Failure("model", "sm: driver failed rc=%d" % mrc, merr[-1000:], lines[:200], "sm"))
@@ -777,6 +842,8 @@ class Spec:
                 cases.append(cs); ncorp += 1
         cases += gen_fault_cases()
         nfault = len(cases) - ncorp
+        cases += gen_outq_cases()
+        noutq = len(cases) - ncorp - nfault
         # bounded-exhaustive: one action at every placement x every handler behaviour, on every shape
         placements = []
         shapes = NORMAL_SHAPES + SMALL_SHAPES
@@ -784,21 +851,25 @@ class Spec:
             nb = len(sf().bounds()) + 1
             for p in range(nb):
                 for mid in (False, True):
-                    for action in ("none", "shutwr", "cclose", "tick", "stop"):
+                    for action in ("none", "shutwr", "cclose", "tick", "stop", "tick1stop", "shutwr1stop", "cclose1stop"):
                         for bi, beh in enumerate(BEHS):
                             placements.append((si, p, mid, action, bi))
         nplace_all = len(placements)
-        if not thorough:
-            # quick: a seed-dependent sample of the placement grid (both modes alternate); thorough: the whole grid x both modes
-            ctx.rng.shuffle(placements)
-            placements = placements[:1400 * (3 if boost else 1)]
+        # quick: the whole grid, polling mode and URI-log registration alternate from point to point (seed-dependent
+        # phase); thorough: the whole grid in both modes, with and without the URI-log callback
+        off = ctx.rng.randrange(4)
         npl = 0
         for j, (si, p, mid, action, bi) in enumerate(placements):
-            for mode in (("select", "epoll") if thorough else (("select", "epoll")[j % 2],)):
-                cs = gen_placement(shapes[si], mode, BEHS[bi], p, action, "pipeline" if (j % 3 == 0) else "end", mid)
+            if thorough:
+                combos = [(m, u) for m in ("select", "epoll") for u in (True, False)]
+            else:
+                k = (j + off) % 4
+                combos = [(("select", "epoll")[k % 2], k != 1)]
+            for mode, uri in combos:
+                cs = gen_placement(shapes[si], mode, BEHS[bi], p, action, "pipeline" if (j % 3 == 0) else "end", mid, urilog=uri)
                 if cs is not None:
                     cases.append(cs); npl += 1
-        nrand = (6000 if thorough else 600) * (3 if boost else 1)
+        nrand = (30000 if thorough else 3000) * (3 if boost else 1)
         for i in range(nrand):
             cases.append(gen_random(ctx.rng, i))
         B = 400
@@ -810,12 +881,15 @@ class Spec:
         cov = {"evaluations": stats["cases"], "distinct_nontrivial": len(sigs),
                "rule": "histories run on the real daemon (h_sm) and on the model driver; distinct = different canonical per-connection "
                        "callback sequences observed on the real code; bounded-exhaustive grid = request shape x phase boundary (and "
-                       "mid-element) x {none,half-close,abrupt close,timeout,stop} x handler behaviour x mode "
-                       "(%d grid points per mode; %s); random = 1..2 connections, pipelined requests, random fragments and actions"
-                       % (nplace_all, "complete in this tier" if thorough else "seed-dependent sample in this tier"),
-               "samples": [cases[ncorp + nfault].lines if len(cases) > ncorp + nfault else [], cases[-1].lines],
-               "placements": npl, "placement_grid_per_mode": nplace_all, "random_histories": nrand, "fault_scripts": nfault,
-               "corpus": ncorp, "exhaustive": bool(thorough), "exhaustive_domain": "the placement grid (thorough tier only)",
+                       "mid-element) x {none,half-close,abrupt close,timeout,stop, and the first three followed by one round + stop} x handler behaviour x mode "
+                       "(%d grid points, all of them in both tiers; %s); random = 1..2 connections, pipelined requests, random "
+                       "fragments and actions; plus fixed fault-injection scripts and scripts with MHD_queue_response outside the handler"
+                       % (nplace_all, "each in both polling modes, with and without URI-log callback" if thorough else
+                          "polling mode and URI-log registration alternate from point to point"),
+               "samples": [cases[ncorp + nfault + noutq].lines if len(cases) > ncorp + nfault + noutq else [], cases[-1].lines],
+               "placements": npl, "outside_handler_reply_scripts": noutq, "placement_grid_per_mode": nplace_all, "random_histories": nrand, "fault_scripts": nfault,
+               "corpus": ncorp, "exhaustive": True,
+               "exhaustive_domain": "the placement grid (shape x phase x mid x action x handler behaviour); modes x URI-log fully only in the thorough tier",
                "outcomes": {"completion_codes": stats["codes"], "settled_states": stats["states"], "handler_call_tokens": stats["handler_calls"],
                             "oracle_rejects": stats["oracle_rejects"], "canonical_diffs": stats["diffs"],
                             "strict_partition_drift (reported, not an alarm)": stats["strict_drift"]}}
